@@ -485,6 +485,31 @@ func main() {
 	if len(os.Args) >= 4 && os.Args[2] == "--replay" {
 		os.Exit(doReplay(prop, eng, os.Args[3]))
 	}
+	if len(os.Args) >= 4 && os.Args[2] == "--seed" {
+		// debugging aid: run one exploration seed with full detail and write it as a replay file
+		seed, _ := strconv.ParseInt(os.Args[3], 10, 64)
+		ovDir, ovHash := overlay()
+		bin := buildEngine(eng.name, ovDir, ovHash)
+		scratch := scratchDir()
+		defer os.RemoveAll(scratch)
+		out := filepath.Join(scratch, "seed.jsonl")
+		os.Setenv("VERIF_DETAIL", "1")
+		log, err := worker(bin, spec{Mode: "explore", SeedStart: seed, SeedStep: 1, MaxRuns: 1, Out: out, KeepOK: 1}, 0, 10*time.Minute)
+		if err != nil {
+			die(2, "worker: %v\n%s", err, log)
+		}
+		runs, _, _ := readResults(out)
+		for _, r := range runs {
+			fmt.Printf("seed %d outcome=%s %s hash=%s config=%v\n", r.Seed, r.Outcome, r.Detail, r.Hash, r.Config)
+			for _, l := range r.History {
+				fmt.Println("  ", l)
+			}
+			for _, v := range r.Violations {
+				fmt.Printf("violation property=%s class=%s sig=%s: %s\n", v.Property, v.Class, v.Sig, v.Msg)
+			}
+		}
+		return
+	}
 	tier := "quick"
 	if len(os.Args) >= 3 {
 		tier = os.Args[2]
@@ -692,7 +717,9 @@ func explore(prop string, eng *engineDef, tier string) int {
 		}
 		nUnknown++
 		if nUnknown > 5 {
-			continue // enough distinct reports for one invocation
+			lines = append(lines, fmt.Sprintf("  (not minimised in this invocation) unlisted violation group class=%s sig=%s runs=%d seed=%d: %s", g.class, g.sig, g.count, g.best.Seed, msg))
+			exit = 1
+			continue // enough minimised reports for one invocation
 		}
 		raw := filepath.Join(scratch, fmt.Sprintf("raw-%d.json", nUnknown))
 		writeJSON(raw, rf)
@@ -918,6 +945,8 @@ var commonAssumptions = []string{
 var engineMeta = map[string]meta{
 	"bsp": {real: []string{"sdk/trace (batch_span_processor.go, provider.go, span.go, tracer.go) instrumented by simgen from the current working tree", "internal/global"},
 		stub: []string{"SpanExporter (scripted: ok/error/slow/hang-until-ctx)"}, assumptions: commonAssumptions},
+	"logbatch": {real: []string{"sdk/log (batch.go, exporter.go, ring.go, logger.go, record.go, provider.go) instrumented by simgen from the current working tree", "internal/global"},
+		stub: []string{"log.Exporter (scripted: ok/error/slow/hang-until-ctx)", "a second Processor that mutates the record it is given"}, assumptions: commonAssumptions},
 }
 
 func selftestDeterminism(which []string) int {
@@ -935,12 +964,23 @@ func selftestDeterminism(which []string) int {
 		}
 		bin := buildEngine(e.name, ovDir, ovHash)
 		type job struct {
-			procs int
-			out   string
+			procs       int
+			start, step int64
+			n           int
+			out         string
 		}
 		var jobs []job
-		for i, p := range []int{1, 1, 4, 4, 16, 16} {
-			jobs = append(jobs, job{p, filepath.Join(scratch, fmt.Sprintf("%s-det-%d.jsonl", e.name, i))})
+		s0 := seedBase() * 1000
+		n := int64(nSeeds)
+		// same seeds in every process, but visited in different orders and from different starting
+		// points, so that state leaking from one run into the next shows up as a per-seed mismatch
+		for i, j := range []job{
+			{1, s0, 1, nSeeds, ""}, {4, s0, 1, nSeeds, ""}, {16, s0, 1, nSeeds, ""},
+			{1, s0 + n - 1, -1, nSeeds, ""}, {4, s0 + n - 1, -1, nSeeds, ""}, {16, s0 + n/2, 1, nSeeds / 2, ""},
+			{16, s0 + n/3, -1, nSeeds / 3, ""}, {4, s0 + 1, 2, nSeeds / 2, ""},
+		} {
+			j.out = filepath.Join(scratch, fmt.Sprintf("%s-det-%d.jsonl", e.name, i))
+			jobs = append(jobs, j)
 		}
 		var wg sync.WaitGroup
 		errs := make([]error, len(jobs))
@@ -948,7 +988,7 @@ func selftestDeterminism(which []string) int {
 			wg.Add(1)
 			go func(i int, j job) {
 				defer wg.Done()
-				_, errs[i] = worker(bin, spec{Mode: "hash", SeedStart: seedBase() * 1000, SeedStep: 1, MaxRuns: nSeeds, Out: j.out}, j.procs, 20*time.Minute)
+				_, errs[i] = worker(bin, spec{Mode: "hash", SeedStart: j.start, SeedStep: j.step, MaxRuns: j.n, Out: j.out}, j.procs, 20*time.Minute)
 			}(i, j)
 		}
 		wg.Wait()
@@ -974,7 +1014,7 @@ func selftestDeterminism(which []string) int {
 				}
 			}
 		}
-		fmt.Printf("determinism %s: %d seeds x %d processes (GOMAXPROCS 1,4,16): %d mismatches\n", e.name, nSeeds, len(jobs), bad)
+		fmt.Printf("determinism %s: %d seeds x %d processes (GOMAXPROCS 1,4,16; forward, reverse, offset and strided seed orders): %d mismatches\n", e.name, nSeeds, len(jobs), bad)
 		if bad > 0 {
 			status = 2
 		}
